@@ -234,7 +234,7 @@ pub fn spec() -> Spec<Case> {
         rule: "rebase / cherry-pick scenarios biased toward the shortcut's precondition: a topic branch with 1-3 commits each on file A or file C (mostly agent edits; optionally a human-only commit without AI lines in between), an upstream with 1-2 commits usually on another file (precondition holds for all pairs) and sometimes on A (fails for some pair), then rebase {plain, --onto, -i squash, -i drop, -i reorder, -i fixup} or cherry-pick {1, 2 commits} with generated conflict resolutions. Each scenario runs twice with pinned dates: normally, and with GIT_AI_VERIF_NO_FAST_PATH=1 (verification hook) so both shortcuts decline. For every rewritten commit: attestations restricted to the lines that commit adds are equal, prompt records (agent_id, messages, human_author) of referenced sessions are equal, base_commit_sha is the new commit in both; blame at every tip is equal. Whether the shortcut ran is read from its debug log line. non-trivial = the shortcut was actually taken; distinct by case hash".into(),
         cases_quick: 224,
         cases_thorough: 3000,
-        shrink_iters: 50,
+        shrink_iters: 20,
         workers: 14,
         strategy: strategy().sboxed(),
         run,
